@@ -111,6 +111,9 @@ def run(ck):
                     ck.case(fp=('pair-scale', sc_, q, str(pr)), nontrivial=True)
                     report_case(ck, tag + ' scaled %g' % sc_, ta, tb, [(t1, t2, ta.point(t1))], {'pr': pr, 'q': q, 'scale': sc_}, exact_count=1)
         ck.sample('constructed/Q=%d' % q, cases[0])
+    # the identities that entitle the placement families to their oracle (differences, determinant ratios, squared lengths, extreme coordinates), for all integers
+    ck.apalache('MC_Placement', 'Inv')
+    ck.apalache('MC_Placement', 'Wrong', expect_error=True)
     ck.count('skipped_small_angle', skipped)
     # nearly straight, nearly axis-parallel strokes (long thin boxes) against curves: evenly spaced control points make the stroke's parameter the Line's, so the
     # Line spelling of the stroke gives the true parameters (Line x Bezier is decided by the families above)
